@@ -1,7 +1,7 @@
 #!/usr/bin/env python3
 """Confirms a property-breaking change written by a sub-agent and runs checks against it.
 
-usage: seed.py <Cxx> <variant> [--checks C01,C12] [--no-suite] [--tier quick]
+usage: seed.py <Cxx> <variant> [--checks C01,C12] [--no-suite] [--tier quick] [--root /tmp/seed2 --name c] [--recheck]
 
  1. fresh scratch worktree of /repo HEAD: demo passes on the clean tree
  2. patch applied: `go build ./...` ok, demo FAILS, the repository's suite still passes every stable test
@@ -15,8 +15,10 @@ checks = [pid]
 if '--checks' in sys.argv:
     checks = sys.argv[sys.argv.index('--checks') + 1].split(',')
 tier = sys.argv[sys.argv.index('--tier') + 1] if '--tier' in sys.argv else 'quick'
-src = f'/tmp/seed/{pid}/seed_out/{var}'
-dst = f'/verif/seeded/{pid}{var}'
+root = sys.argv[sys.argv.index('--root') + 1] if '--root' in sys.argv else '/tmp/seed'
+name = sys.argv[sys.argv.index('--name') + 1] if '--name' in sys.argv else var  # recorded as /verif/seeded/<Cxx><name>
+src = f'{root}/{pid}/seed_out/{var}'
+dst = f'/verif/seeded/{pid}{name}'
 env = dict(os.environ, GOFLAGS='-mod=mod', GOPROXY='off', GOSUMDB='off')
 if '--recheck' in sys.argv:
     # only re-run the checks against an already confirmed change and update its record
@@ -39,8 +41,8 @@ m = re.search(r'cp\s+seed_out/\w+/(\S+)\s+(\S+)', howto)
 t = re.search(r'go test[^\n]*?-run\s+(\S+)[^\n]*?\s(\./\S+)', howto)
 if not (m and t):
     print('cannot parse HOWTO'); sys.exit(2)
-demo_src, demo_dst, run_pat, pkg = m.group(1), m.group(2), t.group(1), t.group(2)
-meta = {'property': pid, 'variant': var, 'demo': {'file': demo_src, 'placed_at': demo_dst, 'run': f'go test -vet=off -count=1 -run {run_pat} {pkg}'}}
+demo_src, demo_dst, run_pat, pkg = m.group(1), m.group(2), t.group(1).strip('\'"'), t.group(2)
+meta = {'property': pid, 'variant': name, 'demo': {'file': demo_src, 'placed_at': demo_dst, 'run': f'go test -vet=off -count=1 -run {run_pat} {pkg}'}}
 
 wt = tempfile.mkdtemp(prefix='seedwt-', dir='/tmp'); os.rmdir(wt)
 subprocess.run(['git', '-C', '/repo', 'worktree', 'add', '-q', '--detach', wt, 'HEAD'], check=True)
